@@ -1,2 +1,3 @@
 import HoloGen.Math
 import HoloGen.Proj
+import HoloGen.Tables
